@@ -60,7 +60,7 @@ def compile_batch(items, tags=None, run_init=True):
             # package main outputs: build + run each (init executes, main is empty)
             for name, src in items:
                 if pkg_of(src) == "main" and name not in errs:
-                    q, berr = b.run_main(name) if not tags else (None, "")
+                    q, berr = b.run_main(name, tags=tags)
                     if q is not None and q.returncode != 0:
                         init_fail[name] = (q.stdout + q.stderr)[-1500:]
         return errs, unstable, init_fail
